@@ -109,8 +109,10 @@ impl fmt::Debug for Cell {
                 _ => write!(f, "{}", n),
             },
             Cell::Real(r) => write!(f, "{}", r),
-            Cell::Str(s) if flags.fitscreen() && s.len() > STR_ELIDE_LEN =>
-                write!(f, "\"{} ...", s.split_at(STR_ELIDE_LEN).0),
+            Cell::Str(s) if flags.fitscreen() && s.len() > STR_ELIDE_LEN => {
+                let cut = s.char_indices().map(|(i, _)| i).take_while(|i| *i <= STR_ELIDE_LEN).last().unwrap_or(0);
+                write!(f, "\"{} ...", &s[..cut])
+            }
             Cell::Str(s) => write!(f, "{:?}", s.as_str()),
             Cell::Vector(v) => {
                 f.write_str("[ ")?;
